@@ -96,7 +96,13 @@ static void one(int v)
     t->taskpool = (parsec_taskpool_t *)tp;
     t->task_class = ref_tc[CID];
     FILL(&t->locals, g, sp);
+#ifdef NO_EDGES
+    /* a class without output dependencies towards tasks: ptgpp emits no iterate_successors at all */
+    VASSERTM(ref_tc[CID]->iterate_successors == NULL, "class without task successors has no iterate_successors function");
+    (void)rec;
+#else
     ITER_SUCC(&the_es, t, PARSEC_ACTION_DEPS_MASK | PARSEC_ACTION_RELEASE_LOCAL_DEPS, rec, NULL);
+#endif
 
     /* Known finding C01-descending-range: activations whose destination class (KF_NEG_DC) has a
      * descending parameter range are dropped by the generated bounds check.  EXCLUDE: candidates
